@@ -243,7 +243,10 @@ func respell(dir string, how int64) string {
 
 // globRel lists the case-relative names matched by base/pattern (the glob oracle of the model).
 func (s *sess) globRel(base, pattern string) []string {
-	m, _ := filepath.Glob(filepath.Join(s.dir, base, pattern))
+	m, err := filepath.Glob(filepath.Join(s.dir, base, pattern))
+	if err != nil {
+		return []string{"BADPATTERN"} // the pattern is malformed: an error, not "nothing matches"
+	}
 	var out []string
 	for _, p := range m {
 		r, err := filepath.Rel(s.dir, p)
@@ -397,11 +400,18 @@ func init() {
 		var parts []string
 		// filepath.Glob's own order (sorted per directory, component by component) is the order in
 		// which the commands process items and files: not re-sorted here
-		dirs, _ := filepath.Glob(filepath.Join(s.dir, base, itemPat))
+		dirs, err := filepath.Glob(filepath.Join(s.dir, base, itemPat))
+		if err != nil {
+			return "BADPATTERN" // malformed item pattern
+		}
 		for _, d := range dirs {
 			rel, _ := filepath.Rel(filepath.Join(s.dir, base), d)
 			item := strings.ReplaceAll(rel, "/", ".")
-			fs, _ := filepath.Glob(filepath.Join(d, srcPat))
+			fs, err := filepath.Glob(filepath.Join(d, srcPat))
+			if err != nil {
+				parts = append(parts, item+"|BADPATTERN") // malformed file pattern
+				break
+			}
 			var names []string
 			for _, f := range fs {
 				r, _ := filepath.Rel(s.dir, f)
